@@ -540,6 +540,8 @@ public:
             sum += v.second;
         });
         // std::cout<<(long int)sum<<"asfe";
+        if (sum == 0)
+            return; // no mass to distribute: the bins stay 0 (0 / 0 made every bin NaN)
         std::for_each(base_t::begin(), base_t::end(), [&](value_t const& v) {
             base_t::operator[](v.first) = v.second / sum;
         });
